@@ -459,11 +459,11 @@ TIES = {
                               'member_is_tie', 'any_predicate_tie'],
                     cxx='eq/ne/lt/le/gt/ge: the functor macro and the function table of matcher/compare.hpp, predicate_matcher::matches_ '
                         '(matcher.hpp), param_matches_impl for matchers and for plain values (mock.hpp), member_is_matcher, any_predicate'),
-    'RingScripts': dict(props=['C14', 'C06', 'C05'], gen=['RunActions', 'Notify', 'Decommission', 'ExpectationsDtor', 'IsCompleted', 'HandleRetire', 'HandleDetach', 'SeqDtor', 'Cost'],
+    'RingScripts': dict(props=['C14', 'C06', 'C05'], gen=['RunActions', 'Notify', 'Decommission', 'ExpectationsDtor', 'IsCompleted', 'HandleRetire', 'HandleDetach', 'SeqDtor', 'Cost', 'RetireUntil'],
                         theorems=['run_actions_list_script', 'run_actions_heap', 'run_actions_seq_script', 'run_actions_seq_heap',
                                   'notify_seq_script', 'notify_seq_heap', 'decommission_list_script', 'expectations_dtor_list_script',
                                   'kill_script_from_cxx', 'kill_heap_from_cxx', 'is_completed_on_heap',
-                                  'handle_retire_script', 'handle_detach_script', 'seq_dtor_on_machine', 'cost_on_machine'],
+                                  'handle_retire_script', 'handle_detach_script', 'seq_dtor_on_machine', 'cost_on_machine', 'retire_until_on_machine'],
                         cxx='which ring operations run_actions / lifetime_monitor::notify / decommission / ~expectations perform on the '
                             'mock-function lists and the sequence lists (read off their translations), composed with the heap refinement'),
     'Ring': dict(props=['C14'], gen=['RingUnlink', 'RingElemDtor', 'RingMoveAssign', 'RingPushFront', 'RingPushBack', 'RingBegin', 'RingEnd',
